@@ -1,5 +1,5 @@
 //@ unit C15_glyf
-//@ props C15 C16
+//@ props C15 C16 C09
 //@ module src/tables/glyf.rs
 //@ strength complete for a single component (all flag/argument/scale combinations); bounded(2 minimal components, instructions <= 2 bytes) for the instruction bookkeeping of the whole glyph
 //@ unverified SimpleGlyph write/read round trip, glyf/loca table level
